@@ -24,7 +24,8 @@ RULE = ('models of a grammar whose name and value attributes are STRINGs, filled
         'one @startuml/@enduml pair, balanced braces outside the legend and balanced legend markers. distinct = (export kind, '
         'structure, hostile character classes present); non-trivial = hostile characters or a mixed list present')
 REQUIRED = {'model_exports': 300, 'metamodel_dot_exports': 100, 'plantuml_exports': 100, 'hostile_strings': 500,
-            'mixed_lists': 50, 'multi_file_exports': 30, 'nodes_checked': 2000}
+            'mixed_lists': 50, 'multi_file_exports': 30, 'nodes_checked': 2000,
+            'models_with_value_equal_user_objects': 50}
 
 GRAMMAR = '''
 Model: imports*=Import objs*=Obj;
@@ -213,7 +214,20 @@ def one(ctx, i, rep=None):
             for nm, t in zip(['main.m', 'other.m'], texts):
                 with open(os.path.join(tmp, nm), 'w') as f:
                     f.write(t)
-            mm = metamodel_from_str(GRAMMAR)
+            classes = []
+            cv = (i // 6) % 4
+            if cv >= 2:
+                # user classes with value semantics: distinct objects compare equal (cv 2: hashable, cv 3: unhashable)
+                class Sub:
+                    def __init__(self, parent=None, name=None, of=None):
+                        self.parent, self.name, self.of = parent, name, of
+
+                    def __eq__(self, other):
+                        return type(other) is type(self)
+                    __hash__ = (lambda self: 7) if cv == 2 else None
+                classes = [Sub]
+                ctx.count('models_with_value_equal_user_objects')
+            mm = metamodel_from_str(GRAMMAR, classes=classes)
             mm.register_scope_providers({'*.*': sp.PlainNameImportURI()})
             try:
                 m = mm.model_from_file(os.path.join(tmp, 'main.m'))
